@@ -95,7 +95,8 @@ def r2_contract(ctx):
             impls = [("slice", b) for b in F.bodies_with("slice_reader", "XmlSource", end=h)] + [("buffered", b) for b in F.bodies_with("buffered_reader", "XmlSource", end=h)]
             for kind, b in impls:
                 names = {sym.short(callee_of(t)[0]).split("::")[-1] for _, t in b.calls() if callee_of(t)[0]}
-                ctx.ob("R2", "scanner:%s:%s" % (kind, h), scan in names, "%s %s scans with %s" % (kind, h, scan), config=cfg)
+                alts = {"position": ("position", "take_while", "find")}.get(scan, (scan,))
+                ctx.ob("R2", "scanner:%s:%s" % (kind, h), any(a in names for a in alts), "%s %s scans with %s: %s" % (kind, h, "/".join(alts), sorted(names)[:8]), config=cfg)
             ctx.ob("R2", "scanner:%s:both" % h, len(impls) == 2, "both implementations exist", config=cfg)
         # '<' needle and whitespace predicate
         for kind, b in [("slice", x) for x in F.bodies_with("slice_reader", "XmlSource", end="read_text")] + [("buffered", x) for x in F.bodies_with("buffered_reader", "XmlSource", end="read_text")]:
